@@ -223,6 +223,18 @@ func (e *e3) predicateImplies(fn *ssa.Function, idx int, outcome bool) bool {
 	}
 	e.guardMemo[mk] = false // recursion guard
 	key := indKey(fn.Params[idx])
+	// a predicate over a NODE (isPlaceOfHiddenIndividual(placeTag)): the person it talks about is the owner the helper
+	// looks up for that node with individualForNode; the guard facts inside the helper are about that person
+	if !isIndividual(fn.Params[idx].Type()) && e.ownerOf != nil {
+		for _, c := range su.Calls(fn) {
+			cc := c.Common()
+			if cc.StaticCallee() == e.ownerOf && len(cc.Args) == 2 && su.Strip(cc.Args[1]) == ssa.Value(fn.Params[idx]) {
+				if val, ok := c.(ssa.Value); ok {
+					key = indKey(val)
+				}
+			}
+		}
+	}
 	pathPred := map[*ssa.BasicBlock]*ssa.BasicBlock{}
 	resolve := func(v ssa.Value) ssa.Value {
 		for i := 0; i < 10; i++ {
@@ -590,6 +602,10 @@ func (e *e3) ownerGuarded(v ssa.Value, ins ssa.Instruction) bool {
 		if val, ok := c.(ssa.Value); ok && e.guardedKey(indKey(val), ins) {
 			return true
 		}
+	}
+	// the owner test extracted into a boolean helper that is handed the node itself
+	if _, isNode := nodeType(v.Type()); isNode && e.guardedKey(key, ins) {
+		return true
 	}
 	return false
 }
@@ -1862,7 +1878,7 @@ func c17Living(p *load.Prog, r *oblig.Run, fn *ssa.Function) {
 		v = strip(v)
 		switch x := v.(type) {
 		case *ssa.Parameter:
-			if len(fn.Params) > 0 && x == fn.Params[0] {
+			if par := x.Parent(); par != nil && len(par.Params) > 0 && x == par.Params[0] {
 				return "recv"
 			}
 		case *ssa.Call:
@@ -1883,20 +1899,14 @@ func c17Living(p *load.Prog, r *oblig.Run, fn *ssa.Function) {
 		}
 		return ""
 	}
-	var rets []*ssa.Return
-	for _, b := range fn.Blocks {
-		if rt, ok := b.Instrs[len(b.Instrs)-1].(*ssa.Return); ok {
-			rets = append(rets, rt)
+	// pathsBad: for function f (IsLiving itself, or a helper it returns the answer of) and the facts the caller's path
+	// has already established, the reason why some path to return rt can answer "not living" unjustified ("" if none)
+	var pathsBad func(f *ssa.Function, rt *ssa.Return, inherited map[string]int, depth int) (int, string)
+	pathsBad = func(f *ssa.Function, rt *ssa.Return, inherited map[string]int, depth int) (int, string) {
+		paths, capped := simplePaths(f.Blocks[0], map[*ssa.BasicBlock]bool{}, 5000)
+		if capped {
+			return 1, "more than 5000 paths through " + load.FuncName(f)
 		}
-	}
-	paths, capped := simplePaths(fn.Blocks[0], map[*ssa.BasicBlock]bool{}, 5000)
-	if capped {
-		r.Add("R17.b", "IsLiving paths", p.Pos(fn.Pos()), "path enumeration").Unknown("more than 5000 paths")
-		return
-	}
-	for ri, rt := range rets {
-		key := fmt.Sprintf("IsLiving answer #%d", ri+1)
-		o := r.Add("R17.b", key, p.Pos(rt.Pos()), "return of IsLiving")
 		bad := ""
 		n := 0
 		for _, path := range paths {
@@ -1905,6 +1915,9 @@ func c17Living(p *load.Prog, r *oblig.Run, fn *ssa.Function) {
 			}
 			n++
 			facts := map[string]int{}
+			for k, v := range inherited {
+				facts[k] = v
+			}
 			for i, b := range path[:len(path)-1] {
 				iff, ok := b.Instrs[len(b.Instrs)-1].(*ssa.If)
 				if !ok {
@@ -1979,6 +1992,24 @@ func c17Living(p *load.Prog, r *oblig.Run, fn *ssa.Function) {
 			if facts["recv-nil"] == 1 || facts["deaths"] == 1 || (facts["max"] == 1 && facts["year"] == 1) {
 				continue
 			}
+			// the answer of a helper method of the same individual: its paths, with what this path established
+			if hc, isCall := val.(*ssa.Call); isCall && depth < 2 {
+				h := hc.Call.StaticCallee()
+				if h != nil && p.IsRepoFunc(h) && len(h.Blocks) > 0 && h != f && len(hc.Call.Args) > 0 && strip(hc.Call.Args[0]) == ssa.Value(f.Params[0]) {
+					hbad := ""
+					for _, hb := range h.Blocks {
+						if hrt, ok := hb.Instrs[len(hb.Instrs)-1].(*ssa.Return); ok && len(hrt.Results) == 1 {
+							if _, b2 := pathsBad(h, hrt, facts, depth+1); b2 != "" {
+								hbad = b2
+							}
+						}
+					}
+					if hbad != "" {
+						bad = hbad
+					}
+					continue
+				}
+			}
 			var miss []string
 			if facts["max"] != 1 {
 				miss = append(miss, "MaxLivingAge may be 0 (which means: only an explicit death ends a life)")
@@ -1988,6 +2019,18 @@ func c17Living(p *load.Prog, r *oblig.Run, fn *ssa.Function) {
 			}
 			bad = "a path can answer 'not living' without a death although " + strings.Join(miss, " and ")
 		}
+		return n, bad
+	}
+	var rets []*ssa.Return
+	for _, b := range fn.Blocks {
+		if rt, ok := b.Instrs[len(b.Instrs)-1].(*ssa.Return); ok {
+			rets = append(rets, rt)
+		}
+	}
+	for ri, rt := range rets {
+		key := fmt.Sprintf("IsLiving answer #%d", ri+1)
+		o := r.Add("R17.b", key, p.Pos(rt.Pos()), "return of IsLiving")
+		n, bad := pathsBad(fn, rt, nil, 0)
 		switch {
 		case n == 0:
 			o.OK("unreachable")
